@@ -1,10 +1,72 @@
 (* C07 — row models survive the trip to spreadsheet cells and back, in every layout.
-   Only property theorems here, each closed by [exact] and followed by Print Assumptions. *)
-From Coq Require Import List NArith Bool.
-From RPFT Require Import Base.Sexp Base.PyStr Gen.Tables Cell.Cell Row.Ty Row.Layout Row.RowParse Row.RowUnparse Row.FlowRow Row.RowFacts.
+   Only property theorems here, each closed by [exact] and followed by Print Assumptions.
+
+   Vocabulary (Row/RoundTrip.v):  [row_dom root v targets] is the executable domain of the
+   statement = representable (strings trimmed, floats in the modelled decimal fragment, every
+   list element / non-default compound field writes at least one column — i.e. no all-default
+   model or empty list inside a list —, written headers lead back to their field) + admissible
+   (a node matched by a target header is packed into one cell: the cell codec's domain of C08 —
+   two list levels for the value at hand, no blank last element, no U+0001 — and the shapes the
+   keyword decoder inverts).  The model's cell parser is CellParser.parse without templating:
+   strings with Jinja openers are outside the modelled fragment (evidence: assumptions). *)
+From Coq Require Import List NArith ZArith Bool.
+From RPFT Require Import Base.Sexp Base.PyStr Base.Result Gen.Tables Cell.Cell Row.Ty Row.Layout Row.RowParse
+  Row.RowUnparse Row.FlowRow Row.RowFacts Row.TextFacts Row.RoundTrip Row.RoundTripFacts Row.RoundTripExamples
+  Row.RefuteFacts.
 Import ListNotations.
 
 (* the regenerated constants satisfy what the proofs need *)
 Theorem C07_tables_ok : row_tables_ok = true.
 Proof. exact row_tables_ok_true. Qed.
 Print Assumptions C07_tables_ok.
+
+Theorem C07_text_tables_ok : row_text_tables_ok = true.
+Proof. exact row_text_tables_ok_true. Qed.
+Print Assumptions C07_text_tables_ok.
+
+(* 1. the round trip, any model of the universe, any layout (target headers), no row context,
+      no excluded headers: the row IS written (distinct headers) and read back as the instance.
+      Covers spread layouts at any nesting and packed leaves (lists of basics, lists of lists of
+      basics, bare lists, flat models as key;value pairs, renamed fields). *)
+Theorem C07_row_roundtrip : forall root v targets,
+  row_dom root v targets = true ->
+  exists cells, unparse_row root v targets [] = Ok cells
+                /\ parse_row {| rm_ty := root; rm_ctx := None |} cells = Ok v.
+Proof. exact row_roundtrip_total. Qed.
+Print Assumptions C07_row_roundtrip.
+
+Example C07_row_roundtrip_nonvacuous : row_dom ex_ty ex_v ex_targets = true.
+Proof. exact ex_in_domain. Qed.
+Print Assumptions C07_row_roundtrip_nonvacuous.
+
+Example C07_row_roundtrip_nonvacuous_cells : unparse_row ex_ty ex_v ex_targets [] = Ok ex_cells.
+Proof. exact ex_unparse. Qed.
+Print Assumptions C07_row_roundtrip_nonvacuous_cells.
+
+Example C07_row_roundtrip_nonvacuous_spread : row_dom ex_ty ex_v [] = true.
+Proof. exact ex_in_domain_spread. Qed.
+Print Assumptions C07_row_roundtrip_nonvacuous_spread.
+
+(* 4. the hypotheses cannot be dropped: witnesses outside the domain (replayed on the real
+      RowParser by the harness) *)
+Theorem C07_all_default_in_list_refuted :
+  row_dom r1_ty r1_v [] = false
+  /\ unparse_row r1_ty r1_v [] [] = Ok [([97%N], [113%N])]
+  /\ parse_row {| rm_ty := r1_ty; rm_ctx := None |} [([97%N], [113%N])] = Ok r1_back
+  /\ r1_back <> r1_v.
+Proof. exact all_default_in_list_refuted. Qed.
+Print Assumptions C07_all_default_in_list_refuted.
+
+Theorem C07_packed_blank_refuted :
+  row_dom r2_ty r2_v [[115%N]] = false
+  /\ unparse_row r2_ty r2_v [[115%N]] [] = Ok r2_cells
+  /\ parse_row {| rm_ty := r2_ty; rm_ctx := None |} r2_cells = Ok r2_back
+  /\ r2_back <> r2_v.
+Proof. exact packed_blank_refuted. Qed.
+Print Assumptions C07_packed_blank_refuted.
+
+Theorem C07_packing_limit_refuted :
+  row_dom r4_ty r4_v [[108%N]] = false
+  /\ unparse_row r4_ty r4_v [[108%N]] [] = Err EJoin.
+Proof. exact packing_limit_refuted. Qed.
+Print Assumptions C07_packing_limit_refuted.
